@@ -190,10 +190,15 @@ def volumesMatch (a : DatasetArgs) (c : DockerCall) : Prop :=
 instance (a : DatasetArgs) (c : DockerCall) : Decidable (volumesMatch a c) := by
   unfold volumesMatch; cases (paths a).head? <;> exact inferInstance
 
+/-- no two volumes of a call share a mount point (nothing shadows /scripts, /results or /data) -/
+def MountsDistinct (c : DockerCall) : Prop := (c.volumes.map fun v => stripSlash v.mount).Nodup
+
+instance (c : DockerCall) : Decidable (MountsDistinct c) := by unfold MountsDistinct; exact inferInstance
+
 /-- **volumes** — package at /scripts (read-only) and /results (writable), the directory of the
-files read-only at /data, the backend's cache volumes, nothing else. -/
+files read-only at /data, the backend's cache volumes, nothing else, each at its own mount point. -/
 def VolumesOk (a : DatasetArgs) (ob : Obs) : Prop :=
-  ∀ c ∈ ob.calls, volumesMatch a c
+  ∀ c ∈ ob.calls, volumesMatch a c ∧ MountsDistinct c
 
 /-- the container is started exactly when it has to be, once, on the package's main script, with
 the complete package in the (still existing) run directory -/
@@ -287,15 +292,22 @@ def Ev.kind : Ev → Kind
 /-- the steps between creation and removal of the temporary directory, in order -/
 def steps : List Kind := [.package, .filelist, .run, .pulled, .copy]
 
+/-- the mount points of a backend's cache volumes differ from each other and from the three fixed
+mounts -/
+def RowMounts (r : BackendRow) : Prop :=
+  (["/scripts", "/results", "/data"] ++ r.cacheVolumes.map fun v => stripSlash v.2).Nodup
+
+instance (r : BackendRow) : Decidable (RowMounts r) := by unfold RowMounts; exact inferInstance
+
 /-- What the Python side relies on in a backend's row: the main script is part of the package;
 the script leaves its result under the name the translator reports, in the directory mounted for
 results, and reads the file list under the name `execute_result_async` writes; cache volumes are
 mounted at absolute paths away from the three fixed mounts, and every cache directory the script
 uses is among them. -/
 def RowOk (r : BackendRow) : Prop :=
-  r.runner ∈ r.fileNames ∧ r.runnerResultName = resultFileName ∧ r.runnerOutputDir = "/results" ∧
+  r.runner ∈ r.fileNames ∧ RowMounts r ∧ r.runnerResultName = resultFileName ∧ r.runnerOutputDir = "/results" ∧
   r.runnerFilelist = "filelist.txt" ∧
-  (∀ v ∈ r.cacheVolumes, v.2.toList.head? = some '/' ∧ stripSlash v.2 ∉ ["/scripts", "/results", "/data", "/"]) ∧
+  (∀ v ∈ r.cacheVolumes, v.2.toList.head? = some '/' ∧ stripSlash v.2 ≠ "/") ∧
   (∀ d ∈ r.runnerCacheDirs, d ∈ r.cacheVolumes.map (·.2))
 
 instance (r : BackendRow) : Decidable (RowOk r) := by unfold RowOk; exact inferInstance
